@@ -10,12 +10,12 @@ import PvModel.Proofs.DiseqNF
 namespace Pv
 
 /-- NORMAL FORM: in every state reached by posting `==` / `!=` atoms (any order, any hash-iteration order) every
-    stored disequality contains a pair `(x, t)` with `x` unbound, `t` normal under the substitution and `x` not in
-    `t`: `run_constraints` re-normalises every stored disequality after each unification -/
+    stored disequality is non-empty and EVERY one of its pairs `(x, t)` has `x` unbound, `t` normal under the
+    substitution and `x` not in `t`: `run_constraints` re-normalises every stored disequality after each unification -/
 theorem C02_normal_form (ord : Order) (ho : OrderOK ord) (n : Nat) (as : List TAtom) (st : State)
     (h : postAll ord (State.empty n) as = .ok st) :
     ∀ q ∈ st.store, ∀ ps, q.2 = .diseq ps →
-      ∃ p ∈ ps, st.σ p.1 = .var p.1 ∧ apply st.σ p.2 = p.2 ∧ Term.occurs p.1 p.2 = false := by
+      ps ≠ [] ∧ ∀ p ∈ ps, st.σ p.1 = .var p.1 ∧ apply st.σ p.2 = p.2 ∧ Term.occurs p.1 p.2 = false := by
   intro q hq ps he
   have hd := postAll_dnf ho as (State.empty n) st (good_empty n) (fun _ hq0 => by simp [State.empty] at hq0) h
   rcases hd q hq ps he with f | g
@@ -52,12 +52,80 @@ theorem C02_decides (ord : Order) (ho : OrderOK ord) (n : Nat) (as : List TAtom)
   | panic s =>
     exact absurd hr (postAll_no_panic_of_good ord ho (State.empty n) as (good_empty n) s)
 
+/-- PROJECTION ONTO THE QUERY VARIABLES (the semantic core of purification): in a state reached by posting `==` / `!=`
+    atoms, let `V` be any set of variables (the variables of the walked query term) and `θ` any assignment under
+    which every stored disequality that mentions only variables of `V` holds.  Then `θ` extends to a valuation γ the
+    state describes — so γ satisfies EVERY posted atom — with γ = θ on the unbound variables of `V`.
+    Disequalities that mention a hidden variable may therefore be dropped from the reported answer: they never
+    exclude an instance of the answer term (each hidden variable can take a number of its own). -/
+theorem C02_projection (ord : Order) (ho : OrderOK ord) (n : Nat) (as : List TAtom) (st : State)
+    (h : postAll ord (State.empty n) as = .ok st) (V : List Nat) (θ : Subst)
+    (hvis : ∀ q ∈ st.store, ∀ ps, q.2 = .diseq ps → (∀ y ∈ diseqVars ps, y ∈ V) → DiseqHolds θ ps) :
+    ∃ γ : Subst, (∀ a ∈ as, a.Sat γ) ∧ ∀ y ∈ V, st.σ y = .var y → γ y = θ y := by
+  have hg := (postAll_ok ord ho _ _ as (good_empty n) h).1
+  have hd := postAll_dnf ho as (State.empty n) st (good_empty n) (fun _ hq0 => by simp [State.empty] at hq0) h
+  obtain ⟨γ, hsem, hag⟩ := dnf_project hg.1 hd V θ hvis
+  exact ⟨γ, (C02_invariant_ok ord ho n as st h γ).1 hsem, hag⟩
+
+theorem normal_vars {σ : Subst} : ∀ (u : Term), apply σ u = u → ∀ y ∈ u.vars, σ y = .var y
+  | .var z, h, y, hy => by
+    simp only [Term.vars, List.mem_singleton] at hy
+    subst hy
+    simpa [apply] using h
+  | .val _, _, y, hy => by simp [Term.vars] at hy
+  | .nil, _, y, hy => by simp [Term.vars] at hy
+  | .cons a b, h, y, hy => by
+    simp only [apply, Term.cons.injEq] at h
+    simp only [Term.vars, List.mem_append] at hy
+    rcases hy with hy | hy
+    · exact normal_vars a h.1 y hy
+    · exact normal_vars b h.2 y hy
+  | .comp g a, h, y, hy => by
+    simp only [apply, Term.comp.injEq, true_and] at h
+    simp only [Term.vars] at hy
+    exact normal_vars a h y hy
+
+/-- ANSWER INSTANCES: for a state reached by posting `==` / `!=` atoms and any list `qs` of query terms, the
+    tuples `qs` takes under the SOLUTIONS of the atoms are exactly the instances of the walked query terms
+    `walk*(qs)` under the assignments that satisfy the stored disequalities over the variables of those walked
+    terms — the (semantic) answer: walked terms plus the disequalities that mention only their variables.
+    (The reported answer is this up to the injective renaming of those variables to `_` variables — `C03_names` —
+    and the removal of subsumed disequalities.) -/
+theorem C02_answer_instances (ord : Order) (ho : OrderOK ord) (n : Nat) (as : List TAtom) (st : State)
+    (h : postAll ord (State.empty n) as = .ok st) (qs ts : List Term) :
+    (∃ γ : Subst, (∀ a ∈ as, a.Sat γ) ∧ ts = qs.map (apply γ)) ↔
+    (∃ θ : Subst,
+      (∀ q ∈ st.store, ∀ ps, q.2 = .diseq ps →
+        (∀ y ∈ diseqVars ps, y ∈ qs.flatMap fun q => (apply st.σ q).vars) → DiseqHolds θ ps) ∧
+      ts = qs.map fun q => apply θ (apply st.σ q)) := by
+  have hg := (postAll_ok ord ho _ _ as (good_empty n) h).1
+  constructor
+  · rintro ⟨γ, hsat, rfl⟩
+    have hsem := (C02_invariant_ok ord ho n as st h γ).2 hsat
+    refine ⟨γ, fun q hq ps he _ => hsem.2 q hq ps he, ?_⟩
+    exact List.map_congr_left fun q _ => (hsem.1 q).symm
+  · rintro ⟨θ, hvis, rfl⟩
+    obtain ⟨γ, hsat, hag⟩ := C02_projection ord ho n as st h _ θ hvis
+    refine ⟨γ, hsat, ?_⟩
+    have hsem := (C02_invariant_ok ord ho n as st h γ).2 hsat
+    refine List.map_congr_left fun q hq => ?_
+    rw [← hsem.1 q]
+    symm
+    refine apply_agree fun y hy => ?_
+    have hyV : y ∈ qs.flatMap fun q => (apply st.σ q).vars := List.mem_flatMap.2 ⟨q, hq, hy⟩
+    exact hag y hyV (normal_vars _ (apply_apply_solved hg.1 q) y hy)
+
 section Examples
 open Term
 /-- non-vacuity: `x != y, [x, z] != [1, 2], y == 1` succeeds; `x != y` has become `x != 1` and the second disequality is kept or subsumed -/
 private def pd : List TAtom :=
   [.neq (.var 0) (.var 1), .neq (.cons (.var 0) (.cons (.var 2) .nil)) (.cons (num 1) (.cons (num 2) .nil)), .eq (.var 1) (num 1)]
 example : (match postAll Order.default (State.empty 3) pd with | .ok st => st.store.length | _ => 99) = 1 := by decide
+/-- non-vacuity of `C02_projection`: `q != [h], q == [x]` leaves `x != h` with `h` hidden; with `V = {x}` no stored
+    disequality is visible, so every value of `x` is an instance of the answer -/
+private def pp : List TAtom := [.neq (.var 0) (.cons (.var 2) .nil), .eq (.var 0) (.cons (.var 1) .nil)]
+example : (match postAll Order.default (State.empty 3) pp with
+    | .ok st => st.store.map (fun q => match q.2 with | .diseq ps => diseqVars ps | _ => []) | _ => []) = [[1, 2]] := by decide
 end Examples
 
 end Pv
